@@ -9,6 +9,7 @@ R07c  the ignore pattern is consulted only while building listings, never when
 R07d  dot-files never enter the listing (UMN), whatever the ignore pattern says
 R07e  the final comparison is effect-free and looks only at name and number
 R07g  entries hidden by metadata (Type=X blocks) stay hidden (shared with C08's merge rule)
+R07h  VFS_Real.listdir() returns the OS's names, decoded with the file-system codec and nothing else
 R07f  every name that passes the filter is appended once; nothing else is
 Set equality between listing and directory contents is not decided.
 """
@@ -37,6 +38,7 @@ def check(ctx, rep):
     rep.rule("R07d", "dot-files are never added to the listing by the UMN handler", floor=1)
     rep.rule("R07e", "entrycmp has no effects and reads only name/num", floor=1)
     rep.rule("R07g", "entries hidden by metadata stay hidden: MergeLinkFiles removes the walked entry for Type=X, never re-adds a block for a walked file, keeps its selector index intact", floor=1)
+    rep.rule("R07h", "the real-file-system VFS lists names exactly as the OS returns them (file-system decoding only): the selector built from a listed name is the name on disk", floor=1)
     rep.rule("R07f", "a name is appended to the file list exactly when the filter accepts it, once", floor=1)
     dirbase = ctx.cls("handlers.dir.DirHandler")
     if dirbase is None:
@@ -176,6 +178,46 @@ def check(ctx, rep):
         from .c08 import merge_obligations
 
         merge_obligations(ctx, rep, umn, rule_c="R07g", only_merge=True)
+
+    # ------------------------------------------------------------------ R07h
+    vfsr = ctx.cls("handlers.base.VFS_Real")
+    ld = vfsr.methods.get("listdir") if vfsr else None
+    if ld is None:
+        rep.fail("R07h", "VFS_Real.listdir", detail="directory enumeration of the real VFS not found")
+    else:
+        from ..structure import resolve_value
+
+        problems = []
+        rets = [n for n in ast.walk(ld.node) if isinstance(n, ast.Return) and n.value is not None]
+        if not rets:
+            problems.append("listdir returns nothing")
+
+        def decoded_only(e, var=None) -> bool:
+            """e denotes OS names passed through file-system decoding only"""
+            if isinstance(e, ast.Call) and (dotted(e.func) or "") in ("os.listdir",):
+                return True
+            if isinstance(e, ast.Call) and (dotted(e.func) or "") in ("sorted", "list", "tuple") and e.args:
+                return decoded_only(e.args[0], var)
+            if isinstance(e, (ast.ListComp, ast.GeneratorExp)) and len(e.generators) == 1 and not e.generators[0].ifs \
+                    and isinstance(e.generators[0].target, ast.Name):
+                return decoded_only(e.generators[0].iter, var) and decoded_only(e.elt, e.generators[0].target.id)
+            if var is not None:
+                if isinstance(e, ast.Name) and e.id == var:
+                    return True
+                if isinstance(e, ast.Call) and (dotted(e.func) or "") == "os.fsdecode" and len(e.args) == 1:
+                    return decoded_only(e.args[0], var)
+                if isinstance(e, ast.Call) and isinstance(e.func, ast.Attribute) and e.func.attr == "decode" and decoded_only(e.func.value, var):
+                    kw = {k.arg: k.value for k in e.keywords}
+                    err = kw.get("errors") or (e.args[1] if len(e.args) > 1 else None)
+                    return isinstance(err, ast.Constant) and err.value == "surrogateescape"
+            return False
+
+        for r in rets:
+            v = resolve_value(r.value, ld, vfsr, None, prog, ctx.resolver)
+            if not decoded_only(v):
+                problems.append(f"`return {norm(r.value)[:70]}` hands out something other than the OS's names decoded with the file-system codec: "
+                                "an entry whose listed name differs from its name on disk is looked up under a selector that does not exist and drops out of the listing")
+        rep.add("R07h", f"{ld.qualname}: names as on disk", not problems, ctx.where(ld), "; ".join(problems), key="R07h|listdir")
 
     # ------------------------------------------------------------------ R07e
     if umn is not None:
